@@ -105,6 +105,7 @@ func (w *c09World) callback(id uint32, cmd uint32, bodyb []byte) string {
 }
 
 func (w *c09World) line(c *Ctx, in string) {
+	c.Pending(in)
 	parts := strings.Fields(in)
 	pid := func(i int) uint32 {
 		v, _ := strconv.ParseUint(parts[i], 16, 32)
